@@ -239,6 +239,90 @@ example :
       [some 3, some 0] := by
   decide
 
+/-! ### non-vacuity (audit): the theorems themselves on `exCc` / `exTbl` (all hypotheses at once);
+    `Spec.c09Holds` falsified by wrong observations -/
+namespace C09Example
+
+/-- a preflight from the allowed origin (other case) for PUT at `/b/7` with two requested headers -/
+def pre : CorsReq := exPre "/b/7" "PUT" "x-token , CONTENT-TYPE"
+def outPre : Out :=
+  ⟨[(hAllowMethods, "PUT".toList), (hAllowHeaders, "x-token , CONTENT-TYPE".toList),
+    (hAllowOrigin, "http://GOOD.example".toList)], false⟩
+/-- the same with one header too many -/
+def preBad : CorsReq := exPre "/b/7" "PUT" "x-token,x-evil"
+
+example : Spec.isPreflight pre = true ∧ Spec.originAllowed toLowerAscii exCc pre.origin = true ∧
+    (Spec.requestedHeaders pre.acrh).length = 2 ∧
+    corsOut toLowerAscii exEnv exCc exTbl pre = some outPre ∧
+    Spec.isPreflight preBad = true ∧ corsOut toLowerAscii exEnv exCc exTbl preBad = some ⟨[], false⟩ := by
+  decide
+/-- `C09_alone`, `C09_grant` (granted and refused), `C09_grant_only_if`, `C09_spec` -/
+example : outPre.passOn = false := C09_alone toLowerAscii exEnv exCc exTbl pre outPre (by decide) (by decide) (by decide)
+example := C09_grant toLowerAscii exEnv exCc exTbl pre outPre (by decide) (by decide) (by decide)
+example := C09_grant toLowerAscii exEnv exCc exTbl preBad ⟨[], false⟩ (by decide) (by decide) (by decide)
+example := C09_grant_only_if toLowerAscii exEnv exCc exTbl pre outPre (by decide) (by decide) (by decide) (by decide)
+example : Spec.c09Holds toLowerAscii exEnv exCc exTbl pre (obsOf outPre) = true :=
+  C09_spec toLowerAscii exEnv exCc exTbl pre outPre (by decide)
+
+/-- an actual request (PUT) from the allowed origin; every optional header configured -/
+def actual : CorsReq := { method := "PUT".toList, path := "/b/7".toList, origin := "http://good.example".toList }
+def ccFull : CorsCfg := { exCc with cookies := true, exposeHeaders := ["X-A".toList, "X-B".toList], maxAge := 60 }
+/-- `C09_actual` -/
+example := C09_actual toLowerAscii exEnv ccFull exTbl actual (by decide) (by decide)
+example : (Spec.actualHeaders ccFull actual).length = 4 := by decide
+
+/-- `C09_no_memory` on a history of three requests -/
+example := C09_no_memory toLowerAscii exEnv exCc exTbl [exPre "/a" "GET" "", pre, actual]
+
+/-- RouterJSR311, three services (`/a`, `/b`, `/b/{id}/sub` with an If-condition); exactly one root
+    matches `/b/7` -/
+def jTbl : Config := { router := .jsr, services := exTbl.services ++
+  [{ id := 2, root := "/b/{id}/sub".toList, routes :=
+      [{ id := 2, method := "GET".toList, relPath := "".toList, consumes := [], produces := [], conds := [0], noct := [] },
+       { id := 3, method := "DELETE".toList, relPath := "".toList, consumes := [], produces := [], conds := [], noct := [] }] }] }
+def putReq : Req := { method := "PUT".toList, path := "/b/7".toList, conds := [true] }
+
+/-- every hypothesis of `C09_routable_partial` at once; the PUT is indeed routed -/
+example : Spec.severalRootsMatch exEnv jTbl pre.path = false ∧ exCc.allowedMethods = [] ∧
+    corsOut toLowerAscii exEnv exCc jTbl pre = some outPre ∧
+    (∀ s ∈ jTbl.services, ∀ r ∈ s.built, passesConds r putReq = true) ∧
+    (routeJsr exEnv jTbl putReq).1 = .selected 1 1 [("id".toList, "7".toList)] := by
+  decide
+example := C09_routable_partial toLowerAscii exEnv exCc jTbl pre outPre (by decide) (by decide) rfl (by decide)
+  (by decide) (by decide) putReq rfl rfl (by decide) none
+
+def oPre : Spec.CorsObs := obsOf outPre
+def oAct : Spec.CorsObs := obsOf ⟨Spec.actualHeaders ccFull actual, true⟩
+
+/-- `Spec.c09Holds` is not trivially true.  The granted preflight is falsified by: a later filter or
+    route function that ran; an Allow-Methods value that is not the allowed methods (one more, another
+    one); an Allow-Headers value that is not the requested list; an Allow-Origin that is not the
+    origin.  The preflight that must be refused accepts no CORS header at all: falsified by the full
+    grant and by a lone Allow-Origin; likewise a preflight for a method that is not routable at the
+    URL.  The actual request accepts the four headers in any order and is falsified by: the chain not
+    run; a header twice; a header missing; no header; another status than the twin's. -/
+example :
+    Spec.c09Holds toLowerAscii exEnv exCc exTbl pre oPre = true ∧
+    Spec.c09Holds toLowerAscii exEnv exCc exTbl pre { oPre with later := true } = false ∧
+    Spec.c09Holds toLowerAscii exEnv exCc exTbl pre { oPre with extra := [(hAllowMethods, "PUT,GET".toList)] } = false ∧
+    Spec.c09Holds toLowerAscii exEnv exCc exTbl pre { oPre with extra := [(hAllowMethods, "GET".toList)] } = false ∧
+    Spec.c09Holds toLowerAscii exEnv exCc exTbl pre { oPre with extra := [(hAllowHeaders, "*".toList)] } = false ∧
+    Spec.c09Holds toLowerAscii exEnv exCc exTbl pre { oPre with extra := [(hAllowOrigin, "*".toList)] } = false ∧
+    Spec.c09Holds toLowerAscii exEnv exCc exTbl preBad (obsOf ⟨[], false⟩) = true ∧
+    Spec.c09Holds toLowerAscii exEnv exCc exTbl preBad oPre = false ∧
+    Spec.c09Holds toLowerAscii exEnv exCc exTbl preBad { oPre with extra := [(hAllowOrigin, preBad.origin)] } = false ∧
+    Spec.c09Holds toLowerAscii exEnv exCc exTbl (exPre "/b/7" "GET" "") oPre = false ∧
+    Spec.c09Holds toLowerAscii exEnv ccFull exTbl actual oAct = true ∧
+    Spec.c09Holds toLowerAscii exEnv ccFull exTbl actual { oAct with extra := oAct.extra.reverse } = true ∧
+    Spec.c09Holds toLowerAscii exEnv ccFull exTbl actual { oAct with later := false } = false ∧
+    Spec.c09Holds toLowerAscii exEnv ccFull exTbl actual { oAct with extra := oAct.extra ++ [(hMaxAge, "60".toList)] } = false ∧
+    Spec.c09Holds toLowerAscii exEnv ccFull exTbl actual { oAct with extra := oAct.extra.drop 1 } = false ∧
+    Spec.c09Holds toLowerAscii exEnv ccFull exTbl actual { oAct with extra := [] } = false ∧
+    Spec.c09Holds toLowerAscii exEnv ccFull exTbl actual { oAct with status := 500 } = false := by
+  decide
+
+end C09Example
+
 /-! The frame condition (Lemmas/StateShape.lean): the code has exactly the state this property's model
     accounts for — no further package-level variable, struct type or field; constants as modelled. -/
 -- also: Restful.StateShape.globals_shape
